@@ -191,6 +191,33 @@ func runDefault(o *Out, spec *Spec, r *Ref, m *MethodSpec) {
 				}
 				continue
 			}
+			if fs.Func != "" && len(fs.Path) == 1 {
+				// a field computed by map SOURCE FIELD | FUNC
+				sf, ok := SS.FieldByName(fs.Path[0])
+				if !ok {
+					continue
+				}
+				sv := field(sbase, sf.Index[0])
+				if overlay && updateGuards && isZeroDeep(sv) {
+					cat := zeroCategory(sv.Type())
+					if (cat == "basic" && m.Flags.IZBasic) || (cat == "struct" && m.Flags.IZStruct) || (cat == "nillable" && m.Flags.IZNillable) {
+						if ok, p := Equal(gf, stf); !ok {
+							bad("default_update_zero", fmt.Sprintf("zero-valued source of the function-mapped field %s (selected category) must keep FUNC's value, differs at %s", tf.Name, p))
+						}
+					}
+					continue
+				}
+				want, err := r.callFunc(r.Funcs[fs.Func], r.Callables[fs.Func], sv, tf.Type, nil)
+				if err != nil {
+					ev.Abstained++
+					ev.AbstainWhy = err.Error()
+					continue
+				}
+				if ok, p := Equal(gf, want); !ok {
+					bad("default_value", fmt.Sprintf("function-mapped field %s must equal FUNC(source field), differs at %s", tf.Name, p))
+				}
+				continue
+			}
 			sf, ok := SS.FieldByName(tf.Name)
 			if !ok {
 				if m.Flags.IgnoreMissing && overlay {
